@@ -78,8 +78,8 @@ Definition sx_res (r : res (list flag)) : sx :=
 Definition un_lang (x : sx) : lang := if N.eqb (un_N x) 0 then LangC else LangCxx.
 
 Definition table : list (string * (sx -> sx)) := [
-  ("opts.cc_flags", fun a => sx_res (cc_flags (un_bool (nth_sx 0 a)) (un_bool (nth_sx 1 a))
-                                              (un_strs (nth_sx 2 a)) (un_options (nth_sx 3 a))));
+  ("opts.cc_flags", fun a => sx_res (cc_flags (un_bool (nth_sx 0 a)) (un_bool (nth_sx 1 a)) (un_bool (nth_sx 2 a))
+                                              (un_strs (nth_sx 3 a)) (un_options (nth_sx 4 a))));
   ("opts.ld_flags", fun a => sx_res (ld_flags (un_bool (nth_sx 0 a)) (un_bool (nth_sx 1 a))
                                               (un_options (nth_sx 2 a))));
   ("opts.ld_lib_flags", fun a => sx_res (ld_lib_flags (un_bool (nth_sx 0 a)) (un_options (nth_sx 1 a))));
@@ -87,7 +87,7 @@ Definition table : list (string * (sx -> sx)) := [
   ("opts.ol_make", fun a => sx_list sx_option (ol_make (un_options (nth_sx 0 a))));
   ("opts.ol_add", fun a => sx_list sx_option (ol_add (un_options (nth_sx 0 a)) (un_options (nth_sx 1 a))));
   ("opts.cc_final", fun a =>
-     sx_res (cc_final (un_bool (nth_sx 0 a)) (un_strs (nth_sx 1 a)) (un_strs (nth_sx 2 a))
+     sx_res (cc_final (un_bool (nth_sx 0 a)) (un_bool (nth_sx 11 a)) (un_strs (nth_sx 1 a)) (un_strs (nth_sx 2 a))
                       (un_strs (nth_sx 3 a)) (un_strs (nth_sx 4 a)) (un_options (nth_sx 5 a))
                       (un_options (nth_sx 6 a)) (un_options (nth_sx 7 a)) (un_str (nth_sx 8 a))
                       (un_str (nth_sx 9 a)) (un_opt un_str (nth_sx 10 a))));
